@@ -131,7 +131,7 @@ Acts(hp) ==
            THEN { Act("add", o, 0, 0, G6("X", <<q>>, <<>>, 0, FALSE, ""), <<>>, 0, "", FALSE, "", <<>>, "") : q \in {hp[o].fixedN - 1, hp[o].fixedN} }
            ELSE {})
      \cup (IF "addbad" \in Ops THEN { Act("addbad", o, 0, 0, NoGate, <<>>, 0, "", FALSE, "", <<>>, bk) :
-                                       bk \in (IF Rich THEN BadKinds ELSE {"negative-target", "duplicate", "too-many-targets", "float-index"}) } ELSE {})
+                                       bk \in (IF Rich THEN BadKinds ELSE {"negative-target", "duplicate", "too-many-targets", "float-index", "controlled-too-many-targets"}) } ELSE {})
      \cup (IF "concat" \in Ops THEN { Act("concat", o, o2, d, NoGate, <<>>, 0, "", FALSE, "", <<>>, "") : o2 \in Live(hp), d \in Slots } ELSE {})
      \cup (IF "repeat" \in Ops THEN { Act("repeat", o, 0, d, NoGate, <<>>, k, "", FALSE, "", <<>>, "") : k \in {0, 2}, d \in Slots } ELSE {})
      \cup (IF "copy" \in Ops THEN { Act("copy", o, 0, d, NoGate, <<>>, 0, "", FALSE, "", <<>>, "") : d \in Slots \ {o} } ELSE {})
